@@ -223,7 +223,7 @@ func (x *runner) step(op opSpec, faults bool) (fs []finding) {
 		x.count("validity_ambiguous", 1)
 	case prob != "":
 		fs = append(fs, finding{Key: "accepted-invalid:" + prob,
-			What:   fmt.Sprintf("%s was accepted although afterwards the segment starting at key %x has %s", op.Kind, at, prob),
+			What:   fmt.Sprintf("%s was accepted although afterwards the segment starting at key 0x%x (empty = start of the key space) has %s", op.Kind, at, prob),
 			Detail: map[string]interface{}{"segment_start": fmt.Sprintf("%x", at), "rules_after": canonSpecs(md2.allRules())}})
 	default:
 		x.count("accepted_valid", 1)
@@ -621,7 +621,7 @@ func runDirected(r *ev.Run, rp *reporter) {
 }
 
 func runRandom(r *ev.Run, rp *reporter, rng *rand.Rand) {
-	hists := r.Pick(150, 1000)
+	hists := r.Pick(150, 600)
 	opsPer := 25
 	g := &gen{rng: rng}
 	for h := 0; h < hists; h++ {
@@ -807,6 +807,6 @@ func main() {
 	runConcurrent(r, rp, rng)
 	r.Set("probe_keys", len(probeKeys))
 	r.Set("probe_ranges", len(probeRanges))
-	r.Floor(int64(r.Pick(3000, 20000)))
+	r.Floor(int64(r.Pick(3000, 12000)))
 	r.Finish()
 }
